@@ -631,6 +631,16 @@ class BitStream(ConstBitStream, bitstring.BitArray):
         self._overwrite(bs, pos)
         self._pos = pos + len(bs)
 
+    def __setattr__(self, attribute, value) -> None:
+        if attribute.startswith('_'):
+            super().__setattr__(attribute, value)
+            return
+        # Setting a property (such as s.uint or s.hex) replaces all the bits, so the position might no longer be valid.
+        length_before = len(self)
+        super().__setattr__(attribute, value)
+        if len(self) != length_before:
+            self._pos = 0
+
     def __setitem__(self, /, key: Union[slice, int], value: BitsType) -> None:
         length_before = len(self)
         super().__setitem__(key, value)
